@@ -648,7 +648,15 @@ def site_ticket_replay(case, rng):
         names = ['aes128gcm']                    # SHA-256 suites only: the SHA-384 ticket PSK cannot be used
     try:
         if how == 'expired':
-            clock = loop.FakeClock(start=__import__('time').time() + 3 * 24 * 3600).install()
+            import copy
+            future = __import__('time').time() + 3 * 24 * 3600
+            clock = loop.FakeClock(start=future).install()
+            fresh = []
+            for t in stolen.tickets:             # the attacker's client treats the ticket as fresh,
+                t2 = copy.copy(t)                # only the server (creation_time inside the ticket) sees it expired
+                t2.time = future
+                fresh.append(t2)
+            stolen.tickets = fresh
         co, so = p.handshake(client_kw=dict(session=stolen, settings=vset(ver, cipherNames=names)),
                              server_kw=dict(certChain=sc, privateKey=sk, reqCert=bool(case.get('req_cert')),
                                             settings=vset(ver, **sset)))
